@@ -593,9 +593,36 @@ def check_c13(tier, seed, chk):
             violation(res, dict(sig_base, **{"class": "ran-unselected" if extra else "did-not-run"}),
                       "Divan::default().skip_regex(%s).skip_exact(%s).run_ignored().test_benches(): executed cases differ from the rule: unexpected %s, missing %s" % (list(rx), list(ex), extra[:4], missing[:4]), r)
         outcomes.add(("builder", len(sel)))
+    # skip filters set through the builder first, the command line read afterwards (config_with_args): both apply
+    csets = [
+        (("a_",), (paths[0],), [], ()),
+        (("inherited",), (), ["ign"], ()),
+        ((), (paths[len(paths) // 2],), [], ("g_t",)),
+        (("::1$",), ("zoo::ign::ig",), ["^zoo::f00", "ign"], ("direct",)),
+    ]
+
+    def cone(cs):
+        rx, ex, cpos, cskip = cs
+        mode = ";".join(["default"] + ["skip_regex=" + f for f in rx] + ["skip_exact=" + e for e in ex] + ["config_with_args", "main"])
+        return cs, run_zoo(binary, ["--test", "--include-ignored"] + filter_argv(cpos, cskip, False), {"ZOO_MODE": mode}, timeout=300)
+
+    for (rx, ex, cpos, cskip), r in pmap(cone, csets):
+        count_run(res, r, len(r.log))
+        sel = [c for c in selected(cases, tuple(cpos), tuple(cskip), False) if not any(re.search(f, c["path"]) for f in rx) and c["path"] not in ex]
+        sig_base = {"check": "builder-then-cli", "regex": len(rx), "exact": len(ex), "cli": len(cpos) + len(cskip)}
+        if r.rc != 0:
+            violation(res, dict(sig_base, **{"class": "crash"}), "builder skips %s / %s then config_with_args with %s exited with %s: %s" % (rx, ex, filter_argv(cpos, cskip, False), r.rc, r.err[-300:]), r)
+            continue
+        want, got = expected_records(model, sel), observed_records(r)
+        if want != got:
+            extra = [g for g in got if g not in want]
+            missing = [w for w in want if w not in got]
+            violation(res, dict(sig_base, **{"class": "ran-unselected" if extra else "did-not-run"}),
+                      "Divan::default().skip_regex(%s).skip_exact(%s).config_with_args().main() with arguments %s: executed cases differ from the rule (every skip filter applies, whichever route set it): unexpected %s, missing %s" % (list(rx), list(ex), filter_argv(cpos, cskip, False), extra[:4], missing[:4]), r)
+        outcomes.add(("builder+cli", len(sel)))
     res["distinct_outcomes"] = len(outcomes)
     res["samples"] = [{"filter_set": {"positive": list(s[0]), "skip": list(s[1]), "exact": s[2]}, "selected_cases": len(selected(cases, *s))} for s in sets[1:40:9]]
-    res["bounds"] = {"filter_sets": len(sets), "filter_alphabet": FILTER_ALPHABET, "inner_only_patterns": INNER_ONLY, "builder_filter_sets": len(bsets), "cases": len(cases), "mode": "--test --include-ignored", "tier_zoo": tier}
+    res["bounds"] = {"filter_sets": len(sets), "filter_alphabet": FILTER_ALPHABET, "inner_only_patterns": INNER_ONLY, "builder_filter_sets": len(bsets), "builder_then_cli_sets": len(csets), "cases": len(cases), "mode": "--test --include-ignored", "tier_zoo": tier}
     res["wall_s"] = time.time() - t0
     return [res]
 
@@ -804,6 +831,24 @@ def check_c17(tier, seed, chk):
             expanded += [pth[: mt.start()]] * (1 if b.get("style") == "bench_local" else int(mt.group(1))) if mt else [pth]
         if order != expanded:
             violation(res, dict(sigb, **{"class": "row-order"}), "%s %s, arguments kept: %s: rows are displayed as %s but were measured in the order %s" % (sort[0], sort[1], sub, shown[:6], order[:6]), r)
+    # (c) two test runs started at the same time on two threads of one process, with slow `args`
+    # expressions: every list is still evaluated once, and every case runs once per run
+    for delay in ("0", "3"):
+        r = run_zoo(binary, [], {"ZOO_MODE": "default;par2_test", "ZOO_ARGS_DELAY_MS": delay}, timeout=600)
+        count_run(res, r, len(r.log))
+        sigc = {"check": "concurrent-runs", "delay_ms": delay}
+        if r.rc != 0:
+            violation(res, dict(sigc, **{"class": "crash"}), "two concurrent test runs exited with %s: %s" % (r.rc, r.err[-300:]), r)
+            continue
+        if not check_args_once(res, sigc, "two concurrent Divan::default().run_ignored().test_benches() (args delay %s ms)" % delay, r):
+            continue
+        sel = [c for c in cases if not c["path"].startswith("zoo::pnc")]
+        want = sorted(expected_records(model, sel) * 2)
+        got = sorted(observed_records(r))
+        if want != got:
+            missing = [w for w in set(want) if got.count(w) < want.count(w)]
+            extra = [g for g in set(got) if got.count(g) > want.count(g)]
+            violation(res, dict(sigc, **{"class": "identity"}), "two concurrent test runs: invocations differ from twice the labelled cases: too few %s, too many %s" % (sorted(missing)[:4], sorted(extra)[:4]), r)
     res["distinct_outcomes"] = len(set(j[0]["args_kind"] for j in jobs))
     res["samples"] = [{"cases_run_alone": len(generic_or_args), "family_runs": len(jobs), "example_argv": jobs[len(jobs) // 2][3] if jobs else None}]
     res["bounds"] = {"cases_with_arg_type_or_const": len(generic_or_args), "arg_benches_in_family_runs": len(arg_benches), "sorts": ["%s %s" % s for s in SORTS],
